@@ -16,7 +16,11 @@ func init() {
 // guard Lock/Unlock (deferred or not), channel sends/receives, reads and writes of the id table and
 // of the cancelled mark, container/heap calls, and the schedule points of the verification hook (yield:decide
 // must sit immediately before the guarded decision, yield:send immediately before the send).
+// The function is read in its alpha-normalised form (`normalise`, c07.go; `renumberDecl`, c11.go): an operand that is
+// the receiver prints as _r, a parameter as _p0, _p1, … by position, a local as _v0, _v1, … by order of declaration
+// (the `ready` channel of the two workers is their first parameter: send:_p0); fields keep their names.
 func syncSkeleton(p *Pkg, fd *ast.FuncDecl) string {
+	defer p.normalise(fd)()
 	var out []string
 	emit := func(s string) { out = append(out, s) }
 	last := func(e ast.Expr) string {
@@ -138,7 +142,7 @@ func syncSkeleton(p *Pkg, fd *ast.FuncDecl) string {
 		}
 	}
 	walk(fd.Body, false)
-	return strings.Join(out, " ")
+	return renumberDecl(strings.Join(out, " "))
 }
 
 // the skeletons the transition system of Model/C05Sched.lean was written from (fixed tree)
@@ -151,7 +155,7 @@ var expectedC06 = [][3]string{
 	{"HHWheelTimer", "isCancelled", "Lock read:cancelled Unlock"},
 	{"HHWheelTimer", "delTimer", ""},
 	{"HHWheelTimer", "expireNear", "yield:decide Lock read:cancelled delete:refer Unlock yield:send send:C"},
-	{"HHWheelTimer", "worker", "send:ready select{ case recv:C case recv:pendingAdd case recv:pendingDel case recv:done }"},
+	{"HHWheelTimer", "worker", "send:_p0 select{ case recv:C case recv:pendingAdd case recv:pendingDel case recv:done }"},
 	{"TimerQueue", "schedule", "Lock defer-Unlock send:pendingAdd write:refer"},
 	{"TimerQueue", "Cancel", "Lock defer-Unlock read:refer write:cancelled send:pendingDel delete:refer"},
 	{"TimerQueue", "Size", "Lock len:refer Unlock"},
@@ -160,7 +164,7 @@ var expectedC06 = [][3]string{
 	{"TimerQueue", "delNode", "heap.Remove"},
 	{"TimerQueue", "trigger", "yield:decide Lock read:cancelled heap.Pop heap.Fix heap.Pop delete:refer Unlock"},
 	{"TimerQueue", "tick", "yield:send send:C"},
-	{"TimerQueue", "worker", "send:ready select{ case recv:C case recv:pendingAdd case recv:pendingDel case recv:done }"},
+	{"TimerQueue", "worker", "send:_p0 select{ case recv:C case recv:pendingAdd case recv:pendingDel case recv:done }"},
 }
 
 func extractC06(repo string, o *Out) {
